@@ -616,6 +616,45 @@ func relabelSig(sig hotstuff.QuorumSignature, n int) hotstuff.QuorumSignature {
 	return nil
 }
 
+// absorbCount: for signers [c-1, x, y, ...] (c of them) the bytes "S | c | c-1 | x | y ..." also read as
+// "S|c  |  c-1 | x | y ...": one signer fewer, the count word appended to the last signature entry.
+func absorbCount(sig hotstuff.QuorumSignature) hotstuff.QuorumSignature {
+	switch s := sig.(type) {
+	case crypto.Multi[*crypto.EDDSASignature]:
+		if len(s) < 2 || int(s[0].Signer()) != len(s)-1 {
+			return nil
+		}
+		out := make(crypto.Multi[*crypto.EDDSASignature], 0, len(s)-1)
+		// entries keep their bytes except that everything is concatenated in order: drop the first label
+		all := s.ToBytes()
+		all = binary.LittleEndian.AppendUint32(all, uint32(len(s)))
+		for i, e := range s[1:] {
+			b := []byte{}
+			if i == 0 {
+				b = all
+			}
+			out = append(out, crypto.RestoreEDDSASignature(b, e.Signer()))
+		}
+		return out
+	case crypto.Multi[*crypto.ECDSASignature]:
+		if len(s) < 2 || int(s[0].Signer()) != len(s)-1 {
+			return nil
+		}
+		out := make(crypto.Multi[*crypto.ECDSASignature], 0, len(s)-1)
+		all := s.ToBytes()
+		all = binary.LittleEndian.AppendUint32(all, uint32(len(s)))
+		for i, e := range s[1:] {
+			b := []byte{}
+			if i == 0 {
+				b = all
+			}
+			out = append(out, crypto.RestoreECDSASignature(b, e.Signer()))
+		}
+		return out
+	}
+	return nil
+}
+
 // relabelBLS keeps the aggregate signature point and names another set of as many signers in the bit field.
 func relabelBLS(sig hotstuff.QuorumSignature, n int) hotstuff.QuorumSignature {
 	s, ok := sig.(*crypto.BLS12AggregateSignature)
@@ -1482,7 +1521,18 @@ func (a *adversary) swapInAggregate(nd *Node, agg hotstuff.AggregateQC) (hotstuf
 	if old.Signature() != nil && a.chance(0.5) {
 		// labels only: the same signature bytes under other signers' names. Whatever the victim signed over the bytes of
 		// its entry, it did not attest a certificate signed by these replicas
-		if bad = permuteSig(old.Signature()); bad == nil {
+		switch mix(w.plan.Inner, 0x7477696e, a.ctr) % 4 {
+		case 1:
+			bad = resplitSig(old.Signature()) // the same bytes and signers, divided differently among the entries
+		case 2:
+			bad = retypeSig(old.Signature()) // the same entries presented as the other multi-signature scheme's
+		case 3:
+			bad = absorbCount(old.Signature()) // one signer fewer: its label read as the count (needs first signer = count-1)
+		}
+		if bad == nil {
+			bad = permuteSig(old.Signature())
+		}
+		if bad == nil {
 			bad = relabelBLS(old.Signature(), w.plan.N)
 		}
 		if bad != nil {
